@@ -5,7 +5,7 @@ import common, polyrun, gen_shapes
 
 SHAPES_COQ = ["Base/FM.v", "Base/Sys.v", "Base/Gens.v", "Poly/PolyOps.v", "Base/Sup.v", "Poly/PolyQuery.v",
               "Shapes/ExtNum.v", "Shapes/DBM.v", "Shapes/DBMSound.v", "Shapes/DBMExact.v", "Shapes/DBMClosed.v",
-              "Shapes/Templ.v", "Shapes/ToSys.v"]
+              "Shapes/Templ.v", "Shapes/ToSys.v", "Shapes/Oct.v", "Shapes/OctBridge.v"]
 
 TRUSTED = [
     "Coq 8.16.1 kernel (coqc); vm_compute in the refutation witnesses and the non-vacuity Examples; no native_compute",
@@ -96,7 +96,9 @@ def describe(f, case):
                 info["relsym"] = rel
             else:
                 v = int(t[3]); den = int(t[4]); n = int(t[5]); co = list(map(int, t[7:7 + n]))
+            b = int(t[7] if t[2].startswith("generalized") else t[6])
             info["var_in_expr"] = (v < len(co) and co[v] != 0)
+            info["expr_inhomogeneous_nonzero"] = (b != 0)
             info["expr_vars"] = sum(1 for a in co if a != 0)
             info["den_negative"] = den < 0
         except Exception:
